@@ -479,6 +479,9 @@ func plencAccepts(s ptStruct, tags []*string, excludePrivate bool) error {
 					return nil // an existing tag plenc itself rejects: not plenctag's doing
 				}
 			}
+			if t.key == "plenc" && t.name == "-" && t.opts != "" {
+				return nil // "-,opt" is not the exclusion marker: plenc rejects the existing tag
+			}
 		}
 	}
 	var p plenc.Plenc
